@@ -546,6 +546,11 @@ impl GroupOrderElement {
     /// 1 / GroupOrderElement
     pub fn inverse(&self) -> ClResult<GroupOrderElement> {
         let mut bn = self.bn;
+        bn.rmod(&ORDER);
+        if bn.iszilch() {
+            // zero has no inverse (and amcl's invmodp does not terminate for it)
+            return Err(err_msg!("Zero is not invertible modulo the group order"));
+        }
         bn.invmodp(&ORDER);
         Ok(GroupOrderElement { bn })
     }
